@@ -464,7 +464,11 @@ func (cw *columnWriter) write(sid uint64, ref *record.Field, col *record.ColVal,
 	for i := range cols {
 		if cols[i].Len < cw.limit {
 			cw.remain = &cols[i]
-			cw.remainTime = &timeCols[i]
+			// A piece of a split starts at bit (i*limit)%8 of the shared bitmap. AppendTimes rebuilds
+			// the bitmap from bit 0 and indexes past its end when that offset is not 0 (segment size
+			// not a multiple of 8), so the remaining timestamps get a column of their own.
+			cw.remainTime = &record.ColVal{}
+			cw.remainTime.AppendTimes(timeCols[i].IntegerValues())
 			break
 		}
 		if err := cw.sw.WriteData(sid, *ref, cols[i], &timeCols[i]); err != nil {
